@@ -17,6 +17,7 @@ import (
 	"github.com/daeuniverse/dae/common/consts"
 	"github.com/daeuniverse/dae/component/outbound/dialer"
 	"github.com/daeuniverse/dae/config"
+	"github.com/daeuniverse/dae/pkg/config_parser"
 	"github.com/sirupsen/logrus"
 )
 
@@ -197,7 +198,7 @@ func TestVerifC14(t *testing.T) {
 		if parserChanged != "" {
 			pc = c14x(parserChanged)
 		}
-		fmt.Fprintf(side, "fa valid=%v lens=%d/%d nodes=%d members=%d via=%s parserchanged=%s\n", valid, len(g.Filter), len(g.FilterAnnotation), len(nodes), nmem, via, pc)
+		fmt.Fprintf(side, "fa valid=%v lens=%d/%d nodes=%d members=%d via=%s parserchanged=%s kwsubtag=%v\n", valid, len(g.Filter), len(g.FilterAnnotation), len(nodes), nmem, via, pc, c14OnlyKeywordOnSubtag(o, g))
 		if valid && len(g.Filter) == len(g.FilterAnnotation) {
 			c14Discrim(stats, o, nodes, g, ev, nOps%3 == 0 && len(nodes) <= 64)
 		}
@@ -244,7 +245,7 @@ func TestVerifC14(t *testing.T) {
 		c14PolicyTok(&pb, g.Policy)
 		gr := VRecover(func() string { return c14Group(pool, g) })
 		st.Emit("grp"+pb.String()+body.String(), gr)
-		fmt.Fprintf(side, "grp valid=%v lenient=%v\n", valid, c14LenientPolicy(g.Policy))
+		fmt.Fprintf(side, "grp valid=%v lenient=%v kwsubtag=%v\n", valid, c14LenientPolicy(g.Policy), c14OnlyKeywordOnSubtag(o, g))
 		c14GroupStats(stats, gr)
 	}
 
@@ -260,6 +261,32 @@ func TestVerifC14(t *testing.T) {
 	}
 	dp.Close()
 	ep.Close()
+
+	// the mirrored time.ParseDuration against the real dialer.NewAnnotation (which calls the library)
+	nDur := 3000
+	if VThorough() {
+		nDur = 60000
+	}
+	for k := 0; k < nDur; k++ {
+		v := c14GenDur(r, stats)
+		out := VRecover(func() string {
+			a, err := dialer.NewAnnotation([]*config_parser.Param{{Key: "add_latency", Val: v}})
+			if err != nil {
+				return "err"
+			}
+			return fmt.Sprintf("ok %d", int64(a.AddLatency))
+		})
+		st.Emit("dur "+c14x(v), out)
+		fmt.Fprintf(side, "dur\n")
+		if out == "err" {
+			stats.Inc("dur.result_error")
+		} else {
+			stats.Inc("dur.result_ok")
+			if strings.Contains(v, ".") {
+				stats.Inc("dur.result_ok_with_fraction")
+			}
+		}
+	}
 
 	nPools := 2500
 	if VThorough() {
